@@ -1,8 +1,16 @@
 import LinOp.Core.Parse
 import LinOp.C15.Gen
+import LinOp.C15.Rect
+import LinOp.Generated.C15Bodies
 /-! Line-protocol driver for the C15 dispatch model over the tables generated from /repo.
 
 ```
+valr <torch-fn> <xarg> <yarg> <alpha|n> <X> <Y>  -> as val, rectangular operands ((n×k)·(k×p) for matmul, n×k elementwise)
+close <xarg> <yarg> <rtol> <atol> <X> <Y>        -> model=<ok 0/1 matrix|err kind> spec=ok <0/1 matrix>   (torch.isclose)
+div <c> <X>                                      -> model=ok M spec=ok M                                  (op / c)
+sumv <dim|n> <X>                                 -> ok v,… | raise ValueError | below | batch             (sum of an unbatched n×k)
+sumshape <shape> <dim|n>                         -> model=<ok shape|raise ValueError|below> spec=<ok shape|raise IndexError>
+bindt <torch-fn> <v>;…|- <k>=<v>;…|-             -> ok <param>=<v>;… | err | no-signature   (torch's own binding)
 mro <Class>                               -> A,B,C | none
 resolve <Class> <method>                  -> <DefiningClass> | none
 dispk <torch-fn> <arg>;…|- <kwarg>;…    -> as disp, tensor-like keyword arguments listed separately
@@ -45,6 +53,10 @@ def showErr : Err → String
 
 def showRes {n : Nat} : Except Err (Mat Rat n n) → String
   | .ok m => "ok " ++ showMat (Mat.toLists m)
+  | .error e => "err " ++ showErr e
+
+def showResR {n m : Nat} : Except Err (Mat Rat n m) → String
+  | .ok a => "ok " ++ showMat (Mat.toLists a)
   | .error e => "err " ++ showErr e
 
 def stepLine (_ : Unit) (line : String) : Unit × String :=
@@ -92,6 +104,93 @@ def stepLine (_ : Unit) (line : String) : Unit × String :=
             | none => "none"
           s!"model={model} spec={sp}"
       | _, _, _, _ => "bad-val"
+    | ["valr", f, xa, ya, al, xs, ys] =>
+      -- rectangular operands: matmul-like functions multiply (n×k)·(k×p), the others are elementwise on n×k
+      match parseArg xa, parseArg ya, parseMat? xs, parseMat? ys with
+      | some xa, some ya, some X, some Y =>
+        let n := X.size
+        let k := (X[0]?.map Array.size).getD 0
+        let alpha : Option (Option Rat) := if al = "n" then some none else (parseRat? al).map some
+        match alpha with
+        | none => "bad-alpha"
+        | some alpha =>
+          if BinFn.ofName f == some .matmul then
+            let p := (Y[0]?.map Array.size).getD 0
+            if Y.size != k then "bad-shapes"
+            else
+              let x : Mat Rat n k := Mat.ofArrays n k X
+              let y : Mat Rat k p := Mat.ofArrays k p Y
+              s!"model={showResR (evalMM T f xa ya x y)} spec={showResR (.ok (Mat.mul x y) : Except Err (Mat Rat n p))}"
+          else
+            let x : Mat Rat n k := Mat.ofArrays n k X
+            let y : Mat Rat n k := Mat.ofArrays n k Y
+            let sp := match BinFn.ofName f with
+              | some b => showResR (specEW b x y alpha)
+              | none => "none"
+            s!"model={showResR (evalEW T f xa ya x y alpha)} spec={sp}"
+      | _, _, _, _ => "bad-val"
+    | ["close", xa, ya, rt, at_, xs, ys] =>
+      match parseArg xa, parseArg ya, parseRat? rt, parseRat? at_, parseMat? xs, parseMat? ys with
+      | some xa, some ya, some rtol, some atol, some X, some Y =>
+        let n := X.size
+        let k := (X[0]?.map Array.size).getD 0
+        let x : Mat Rat n k := Mat.ofArrays n k X
+        let y : Mat Rat n k := Mat.ofArrays n k Y
+        let showB (m : Fin n → Fin k → Bool) : String :=
+          ";".intercalate ((List.finRange n).map fun i => ",".intercalate ((List.finRange k).map fun j => if m i j then "1" else "0"))
+        let model := match evalClose T xa ya x y rtol atol with
+          | .ok m => "ok " ++ showB m
+          | .error e => "err " ++ showErr e
+        s!"model={model} spec=ok {showB fun i j => closeSpec rtol atol (x i j) (y i j)}"
+      | _, _, _, _, _, _ => "bad-close"
+    | ["div", cs, xs] =>
+      match parseRat? cs, parseMat? xs with
+      | some c, some X =>
+        let n := X.size
+        let k := (X[0]?.map Array.size).getD 0
+        let x : Mat Rat n k := Mat.ofArrays n k X
+        s!"model={showResR (.ok (divSem x c) : Except Err (Mat Rat n k))} spec={showResR (.ok (fun i j => x i j / c) : Except Err (Mat Rat n k))}"
+      | _, _ => "bad-div"
+    | ["sumv", ds, xs] =>
+      -- `sum(dim)` of an unbatched n×k operator: values
+      match parseMat? xs, (if ds = "n" then some none else ds.toInt?.map some) with
+      | some X, some dim =>
+        let n := X.size
+        let k := (X[0]?.map Array.size).getD 0
+        let x : Mat Rat n k := Mat.ofArrays n k X
+        match sumBranch 2 dim with
+        | .all => "ok " ++ showRat (sumAll x)
+        | .cols => "ok " ++ ",".intercalate ((List.finRange n).map fun i => showRat (sumCols x i))
+        | .rows => "ok " ++ ",".intercalate ((List.finRange k).map fun j => showRat (sumRows x j))
+        | .batch _ => "batch"
+        | .valueError => "raise ValueError"
+        | .below _ => if LinOp.Generated.C15.sumBelowRaises then "raise ValueError" else "below"
+      | _, _ => "bad-sumv"
+    | ["sumshape", ss, ds] =>
+      -- `sum(dim)`: shape of the result of the branch taken, next to torch's
+      match parseNats? ss, (if ds = "n" then some none else ds.toInt?.map some) with
+      | some sh, some dim =>
+        let showS (o : Option (List Nat)) (none_ : String) := match o with
+          | some l => "ok " ++ ",".intercalate (l.map toString)
+          | none => none_
+        let model := match sumBranch sh.length dim with
+          | .valueError => "raise ValueError"
+          | .below _ => if LinOp.Generated.C15.sumBelowRaises then "raise ValueError" else "below"
+          | _ => showS (sumShape sh dim) "?"
+        s!"model={model} spec={showS (torchSumShape sh dim) "raise IndexError"}"
+      | _, _ => "bad-sumshape"
+    | ["bindt", f, ps, ks] =>
+      -- torch's own binding of the arguments after the operands
+      let pos := if ps = "-" then [] else ps.splitOn ";"
+      let kw : Env := if ks = "-" then [] else (ks.splitOn ";").map fun s => match s.splitOn "=" with
+        | [k, v] => (k, v)
+        | _ => (s, "")
+      match torchSig f with
+      | none => "no-signature"
+      | some (_, sig) =>
+        match bind sig pos kw with
+        | .ok env => "ok " ++ ";".intercalate (env.map fun e => e.1 ++ "=" ++ e.2)
+        | .error _ => "err"
     | _ => "bad-op"
   ((), out)
 
